@@ -13,7 +13,7 @@ From Coq Require Import NArith List String Bool.
 From Falco Require Import Base.TablesBase Model.ScopeMask Model.LintTables Model.LintOps Model.TablesDomain
   Proofs.ScopeMaskProofs Proofs.TablesProofs.
 From Falco Require Import Gen.LintConsts Gen.LintVars Gen.LintDyn Gen.LintFuncs Gen.RefVars Gen.RefFuncs Gen.InterpFuncs.
-From Falco Require Import Gen.ObsVars Gen.ObsFuncs Gen.ObsStmts Gen.ObsOps Gen.KnownGaps.
+From Falco Require Import Gen.ObsVars Gen.ObsFuncs Gen.ObsStmts Gen.ObsOps Gen.ObsWide Gen.KnownGaps.
 Import ListNotations.
 Local Open Scope N_scope.
 Local Open Scope string_scope.
@@ -84,6 +84,24 @@ Theorem C05_lint_ops_model_eq_observed : forall op lty lint interp p rty form,
   In (op, lty, lint, interp) obs_ops -> In (p, rty, form) op_cells_existing ->
   lint_op_model op lty rty form = N.testbit lint p.
 Proof. exact lint_ops_model_eq_observed. Qed.
+
+(* annotations of three and more scopes (every 3-scope mask and the 9-scope mask; thorough tier: all 511 masks) *)
+Theorem C05_lint_wide_model_eq_observed :
+  (forall n op bits m, In (n, op, bits) obs_vars_wide -> In m obs_wide_masks ->
+     lint_var_op the_ctx n op (lint_mode m) = N.testbit bits m) /\
+  (forall n bits m, In (n, bits) obs_funcs_wide -> In m obs_wide_masks ->
+     is_some (lint_get_function n (lint_mode m)) = N.testbit bits m) /\
+  (forall k bits m, In (k, bits) obs_stmts_wide -> In m obs_wide_masks ->
+     lint_stmt k (lint_mode m) = N.testbit bits m /\ N.testbit bits m = forallb (ref_stmt k) (scopes_of m)).
+Proof. exact lint_wide_model_eq_observed. Qed.
+
+Theorem C05_obs_wide_domain :
+  map (fun r => match r with (n, op, _) => (n, op) end) obs_vars_wide
+    = map (fun r => match r with (_, n, op) => (n, op) end) (var_rows obs_http_names) /\
+  map fst obs_funcs_wide = map fst lint_func_flat /\
+  map fst obs_stmts_wide = stmt_kinds /\
+  forallb (fun m => mem_N m obs_wide_masks) three_scope_masks = true.
+Proof. exact obs_wide_domain. Qed.
 
 (* ---- the linter accepts exactly what the reference allows (every scope of the mask) *)
 Theorem C05_lint_ops_eq_ref : forall op lty lint interp p rty form,
@@ -172,6 +190,8 @@ Print Assumptions C05_lint_vars_model_eq_observed.
 Print Assumptions C05_lint_funcs_model_eq_observed.
 Print Assumptions C05_lint_stmts_model_eq_observed.
 Print Assumptions C05_lint_ops_model_eq_observed.
+Print Assumptions C05_lint_wide_model_eq_observed.
+Print Assumptions C05_obs_wide_domain.
 Print Assumptions C05_lint_ops_eq_ref.
 Print Assumptions C05_lint_var_cells_eq_ref.
 Print Assumptions C05_lint_func_cells_eq_ref.
